@@ -329,7 +329,8 @@ def opt_case(spec, pid):
                     hit("corpus_both_within_expectation")
                     v = "ok"
             if v != "ok":
-                culprit = optcommon.attribute(m, o, lambda x: _okish(optcommon.equivalent(m, x, feeds_list, base_main, nondet=nondet)[0]), fired, known)
+                culprit = optcommon.attribute(m, o, lambda x: _okish(optcommon.equivalent(m, x, feeds_list, base_main, nondet=nondet)[0]), fired, known,
+                                              first=("fold:" if v == "dtype" else None))
                 res["c03"].append({"key": _key(culprit, v), "what": f"{o['api']}({_optstr(o)}) changes the result [{v}]: {d}",
                                    "detail": {"opts": o, "case": label, "fired": list(dict.fromkeys(fired))[:20], "kind": v}})
                 hit("mismatch")
